@@ -361,6 +361,20 @@ impl Storage {
         if let Some(min_number) = min_block_number {
             self.update_min_filtered_block_number(min_number);
         }
+        // The pending matched blocks are discarded below, and a script which is kept may lag
+        // behind the min filtered block number (its block number is not updated until all its
+        // matched blocks are downloaded), so rewind to the min block number of all remaining
+        // scripts, otherwise the discarded matched blocks will never be filtered again.
+        if let Some(min_number) = self
+            .get_filter_scripts()
+            .into_iter()
+            .map(|ss| ss.block_number)
+            .min()
+        {
+            if min_number < self.get_min_filtered_block_number() {
+                self.update_min_filtered_block_number(min_number);
+            }
+        }
         self.clear_matched_blocks();
 
         if should_filter_genesis_block {
